@@ -2,6 +2,8 @@
 SPECIFICATION Spec
 CONSTANTS
   Variant = "modes_elements"
+  ShomateOwn <- MCShomateOwn
+  ClassFilter <- MCModes
 INVARIANT TypeOK
 INVARIANT WellFormed
 INVARIANT Refines
